@@ -167,3 +167,58 @@ def exactlen_fused(ctx, rule):
         # the only way to yield data is an inner Ok chunk, which the premise (inner stays finished) excludes.
         ctx.ok(rule, "after %s->%s (budget %s): inner None can only give None/Err" % (r["inner"], r["out"], short(Bf, 30)))
     ctx.floor(rule, n, 3, what="terminal rows of the length-checking stream")
+
+
+def error_injection(ctx, rule):
+    """the two injected errors are boxed error structs converted with From<Box<dyn Error + Send + Sync>>"""
+    X = exactlen_rows(ctx)
+    n = 0
+    for r in X["rows"]:
+        if r["kind"] != "return" or r["out"] != "Err" or r["inner"] == "Err":
+            continue
+        n += 1
+        p = r["payload"]
+        okk = isinstance(p, tuple) and p[0] == "call" and p[1].endswith("From::from") and isinstance(p[2][0], tuple) and p[2][0][0] == "alloc"
+        if okk:
+            ctx.ok(rule, "injected error on row %s->Err is E::from(Box::new(..))" % r["inner"])
+        else:
+            ctx.violation(rule, "%s|%s" % (rule, r["inner"]), "injected error is not built with E::from(Box<dyn Error>): %s" % short(p, 100))
+    ctx.floor(rule, n, 2, what="error-injecting rows")
+
+
+def find_bodystream(ctx):
+    from ..check import FailClosed
+    adt, budget, inner, pn = find_exactlen(ctx)
+    cands = [a for a in ctx.facts.adts.values() if a["local"] and a["kind"] == "enum" and
+             any(any(f["ty"].startswith(adt) for f in v["fields"]) for v in a["variants"])]
+    if len(cands) != 1:
+        raise FailClosed("body stream enum not found uniquely")
+    e = cands[0]
+    pn2 = impl_fn(ctx, "futures_core::Stream", e["path"], "poll_next")
+    return e, pn2[0] if pn2 else None
+
+
+def once_taken(ctx, rule):
+    """the one-shot variant's payload is an Option that poll takes (so a second poll yields None)"""
+    e, pn = find_bodystream(ctx)
+    once = [v for v in e["variants"] if len(v["fields"]) == 1 and v["fields"][0]["ty"].startswith("std::option::Option<std::result::Result<D")]
+    if len(once) != 1 or pn is None:
+        ctx.violation(rule, rule + "|shape", "UNRECOGNISED: no one-shot variant Option<Result<D, E>> in %s" % e["path"])
+        return
+    outs = ctx.px(pn, inline=lambda c, d: True, key="all")
+    n = 0
+    for o in outs:
+        if o.kind != "return":
+            continue
+        takes = [ev for ev in o.events if ev["k"] == "call" and ev["callee"].get("path") == "std::option::Option::<T>::take"]
+        if not takes:
+            continue
+        n += 1
+        kind, payload = poll_shape(o.value)
+        v = o.value
+        okk = is_agg(v) and v[3] == "Ready" and agg_get(v, "0") == takes[0]["result"]
+        if okk:
+            ctx.ok(rule, "one-shot body: poll returns Ready(payload.take())", where=where(takes[0]))
+        else:
+            ctx.violation(rule, rule + "|not-taken", "the one-shot body's poll does not return the taken payload", where=where(takes[0]))
+    ctx.floor(rule, n, 1, what="one-shot poll rows")
